@@ -28,6 +28,10 @@ def run(ctx):
     r3_actions(ctx, fn)
     r4_table(ctx, fn)
     r5_take(ctx, init)
+    from . import c04
+    fam = {k: c for k, c in c04.family(ctx).items() if c.name == "SupervisedSimulation"}
+    c04.r1_iterator_escape(ctx, fam, rule="C14.R6", only={"SupervisedSimulation"})
+    ctx.rules["C14.R6"] = "the example source kept by SupervisedSimulation is re-iterable (every read yields every example again)"
 
 
 def _final_loops(fn):
